@@ -34,7 +34,6 @@ CONSTANTS
   Seeks <- MCSeeks
   Cs <- MCCs
   Bufs <- MCBufs
-  Protocol = %s
 INVARIANTS Geometry Covered
 PROPERTIES DropOnlyConsumed ReadCounts Flags Positions EndFollowsWrite
 VIEW View
@@ -61,7 +60,7 @@ def seq_part(rep, tier):
     for name, c in CONFIGS[tier].items():
         mc = mc_module(name + "_" + tier, c)
         cfg = write_cfg("UFS_%s_%s.cfg" % (name, tier),
-                        CFG % (c[0], c[1], "TRUE", "ACTION_CONSTRAINT EdgeLog\nCONSTRAINT InitLog"))
+                        CFG % (c[0], c[1], "ACTION_CONSTRAINT EdgeLog\nCONSTRAINT InitLog"))
         res = vlib.run_tlc(mc, cfg, "c15_%s_%s" % (name, tier), workers=16, timeout=1500, heap="16g")
         vlib.tlc_must_pass(res, "UncompressedFileSeq " + name)
         rep.add_tlc(res)
@@ -158,6 +157,4 @@ def run(rep, tier, seed):
     seq_part(rep, tier)
     conc_part(rep, tier)
     rep.cov["distinct_nontrivial"] = sum(m["edges"] for m in rep.cov.get("m1", []))
-    rep.assumptions += ["write(container) is only issued while no container is open at the put position "
-                        "(Protocol = TRUE); the unrestricted case is known finding F14",
-                        "projection reads private members (-fno-access-control)"]
+    rep.assumptions += ["projection reads private members (-fno-access-control)"]
